@@ -443,14 +443,15 @@ def error_echo_fields():
 
 
 def error_split_max():
-    """msg = err.raw_msg.strip().decode('latin-1').split(' ', N) + [None]  (the raw line is stripped like decode_msg does)"""
+    """msg = err.raw_msg.strip().decode('utf-8', errors='replace').split(' ', N) + [None]
+    (the raw line is stripped like decode_msg does, since b6f37c1; read as utf-8 with replacement, since a2736c5)"""
     h = _one('DecodeError')
     for a in walk_type(h, ast.Assign):
         s = nows(a)
-        pre, post = "msg=err.raw_msg.strip().decode('latin-1').split('',", ')+[None]'
+        pre, post = "msg=err.raw_msg.strip().decode('utf-8',errors='replace').split('',", ')+[None]'
         if s.startswith(pre) and s.endswith(post):
             return 'nat', cnat(int(s[len(pre):-len(post)]))
-    raise Shape('handle: latin-1 re-split of the stripped raw message not found')
+    raise Shape("handle: utf-8 (errors='replace') re-split of the stripped raw message not found")
 
 
 def help_before_dispatch():
